@@ -15,14 +15,14 @@ notes = {
  "C10": ("VerifC19LaunchMany (C19.failed-launch-clears-spawn-time), run by C10 and C19", "caught as built"),
  "C11": ("VerifC11Delete with the channel already CLOSED / unknown", "missed by the first version (channel always OPEN); channel state became a case split"),
  "C12": ("VerifC08SlashPacket (C08.unmapped-vscid-is-an-error, double-sign packet)", "the harness caught it under check C08; C12 now runs it too"),
- "C13": ("VerifC20UpdateQueued / VerifC13Frame op 4 (two consumers due at the same instant)", ""),
+ "C13": ("VerifC20UpdateQueued / VerifC13Frame op 4 (two consumers due at the same instant)", "caught as built"),
  "C14": ("VerifC14UpdateConsumer (C14.inv.topN-only-while-owned-by-authority)", "caught as built"),
  "C15": ("VerifC15ProviderSet with M any positive int64", "missed by the first version (M bounded by V+1); bound lifted"),
- "C16": ("VerifC16Allocate (C16.credit-equals-paid-plus-community-pool-plus-remaining-credit)", ""),
+ "C16": ("VerifC16Allocate (C16.credit-equals-paid-plus-community-pool-plus-remaining-credit)", "caught as built"),
  "C17": ("VerifC17Handshake (C17.confirm-accepted-iff-same-conditions)", "caught as built"),
- "C18": ("VerifC18MapOrder (C18.accumulate-independent-of-map-order)", ""),
- "C19": ("VerifC19LaunchMany with client creation failing on the first call only", ""),
- "C20": ("VerifC20BeginBlockMany (202 consumers due at once)", ""),
+ "C18": ("VerifC18MapOrder (C18.accumulate-independent-of-map-order)", "missed at first by the native confirmation (one native run rarely hits the bad map order); the replay now repeats the harness 500 times"),
+ "C19": ("VerifC19LaunchMany with client creation failing on the first call only", "missed by the first version: the failure position became a choice and cache contexts became true overlays in the engine"),
+ "C20": ("VerifC20BeginBlockMany (202 consumers due at once)", "missed by the first version (few consumers); a harness with more than 200 due consumers was added"),
 }
 
 notes.update({
@@ -52,11 +52,11 @@ notes.update({
 notes.update({
  "C01-r3": ("package consumer VerifC01ConsumerEndBlock (engine asked to remove a key it never had)", "missed by the first version: the consumer harness replayed the end-block flush by hand instead of calling the module's EndBlock; a harness driving AppModule.EndBlock was added"),
  "C02-r3": ("VerifC03TopNStep (C03.step.threshold-is-computed-over-the-active-set)", "the harness caught it under check C03; C02 now runs it too"),
- "C05-r3": ("VerifC05AssignStep (C05.assign.rejected-iff-rule-applies: own recently replaced key)", ""),
+ "C05-r3": ("VerifC05AssignStep (C05.assign.rejected-iff-rule-applies: own recently replaced key)", "caught as built"),
  "C07-r3": ("VerifC20UpdateQueued (C20.update.different-request-is-queued)", "missed by the first version: the harness's oracle called the repository's own compareInfractionParameters, so it changed together with the code under test; the oracle now has its own equality, and C07 runs the harness"),
  "C08-r3": ("consumer VerifC08ConsumerReports (C08.consumer.power-update-is-not-an-acknowledgement)", "missed by the first version (no validator-set change was applied between report and acknowledgement); step added (predicted from the agent's report), then confirmed"),
  "C10-r3": ("VerifC10UpdatePhase (C10.inv.initialized-scheduled-exactly-once-at-its-spawn-time)", "caught as built"),
- "C11-r3": ("VerifC11Stop (C11.stop.nothing-sent-to-stopped-consumer)", ""),
+ "C11-r3": ("VerifC11Stop (C11.stop.nothing-sent-to-stopped-consumer)", "caught as built"),
  "C14-r3": ("VerifC14ValidatorMsgs msg=0 (C14.val.optin-accepted-only-from-the-validators-operator)", "caught as built"),
  "C16-r3": ("package provider VerifC16Middleware (multi-hop voucher coming back)", "the harness had only single-hop returning denoms; a forwarded voucher was added (predicted from the agent's report), then confirmed"),
  "C19-r3": ("VerifC20UpdateQueued (C20.update.cancelled-request-not-scheduled-at-due-time / older-pending-entry-replaced)", "the harness caught it under check C20; C19 now runs the queue harnesses too"),
